@@ -167,3 +167,50 @@ func ZZFullInterface(name string, epoch time.Time) Interface {
 	zzAssume(err == nil)
 	return *ifi
 }
+
+// ZZKindInterface returns an accepted advertising interface that carries the
+// stanzas of one kind only (smaller symbolic state than ZZFullInterface):
+//
+//	0 header fields, 1 static prefix, 2 static route, 3 RDNSS + DNSSL,
+//	4 MTU + captive portal + PREF64, 5 deprecated prefix, 6 deprecated route
+func ZZKindInterface(name string, kind int, epoch time.Time) Interface {
+	var raw rawInterface
+	raw.Advertise = true
+	switch kind {
+	case 0:
+		raw.Managed, raw.OtherConfig = zzNondetBool(name+".managed"), zzNondetBool(name+".other")
+		dl, _ := zzValueKey(name + ".default_lifetime")
+		raw.DefaultLifetime = &dl
+		raw.ReachableTime, _ = zzValueKey(name + ".reachable_time")
+		raw.RetransmitTimer, _ = zzValueKey(name + ".retransmit_timer")
+		hop := zzNondetInt(name + ".hop_limit")
+		raw.HopLimit = &hop
+		raw.Preference = []string{"", "low", "high"}[zzNondetChoice(name+".preference", 3)]
+	case 1:
+		v1, _ := zzValueKey(name + ".p1.valid")
+		pf1, _ := zzValueKey(name + ".p1.preferred")
+		raw.Prefixes = []rawPrefix{{Prefix: "2001:db8:1::/64", ValidLifetime: &v1, PreferredLifetime: &pf1}}
+	case 5:
+		v2, _ := zzValueKey(name + ".p2.valid")
+		pf2, _ := zzValueKey(name + ".p2.preferred")
+		raw.Prefixes = []rawPrefix{{Prefix: "2001:db8:3::/64", ValidLifetime: &v2, PreferredLifetime: &pf2, Deprecated: true}}
+	case 2:
+		rl, _ := zzValueKey(name + ".r1.lifetime")
+		raw.Routes = []rawRoute{{Prefix: "2001:db8:ffff::/48", Lifetime: &rl, Preference: "high"}}
+	case 6:
+		rl2, _ := zzValueKey(name + ".r2.lifetime")
+		raw.Routes = []rawRoute{{Prefix: "2001:db8:eeee::/48", Lifetime: &rl2, Deprecated: true}}
+	case 3:
+		dlf, _ := zzValueKey(name + ".rdnss.lifetime")
+		slf, _ := zzValueKey(name + ".dnssl.lifetime")
+		raw.RDNSS = []rawRDNSS{{Lifetime: &dlf, Servers: []string{"2001:db8::53"}}}
+		raw.DNSSL = []rawDNSSL{{Lifetime: &slf, DomainNames: []string{"lan.example.com"}}}
+	default:
+		raw.MTU = 1500
+		raw.CaptivePortal = "https://portal.example.com/"
+		raw.PREF64 = []rawPREF64{{}}
+	}
+	ifi, err := parseInterface(name, raw, epoch)
+	zzAssume(err == nil)
+	return *ifi
+}
